@@ -44,11 +44,15 @@ Identities == {i \in [Attrs -> SUBSET Vals] : i["mail"] \in {{}, {"v1"}} /\ i["t
 \* the server is long-lived and serves many providers with one compiled policy: prev is the provider it served just before
 \* (with the full identity), if any.  What it releases now is a function of the present request alone.
 Prev == {[served |-> FALSE, decl |-> "none", hasCat |-> FALSE]} \cup [served : {TRUE}, decl : Decls, hasCat : BOOLEAN]
-Scn == [ident : Identities, upper : BOOLEAN, policy : Policies, decl : Decls, hasCat : BOOLEAN, failOnMissing : BOOLEAN, prev : Prev]
+\* typed: the application hands the values over as byte strings instead of text (same characters).  A value that cannot
+\* be held against a pattern is not thereby allowed.
+Scn == [ident : Identities, upper : BOOLEAN, policy : Policies, decl : Decls, hasCat : BOOLEAN, failOnMissing : BOOLEAN, prev : Prev,
+        typed : BOOLEAN]
+WellFormed(s) == s.typed => ~s.prev.served /\ ~s.upper
 
 VARIABLES scn, pc, ava, outcome
 vars == <<scn, pc, ava, outcome>>
-Init == scn \in Scn /\ pc = "apply" /\ ava = scn.ident /\ outcome = "none"
+Init == scn \in {s \in Scn : WellFormed(s)} /\ pc = "apply" /\ ava = scn.ident /\ outcome = "none"
 
 Empty == [a \in Attrs |-> {}]
 Keep(f, S) == [a \in Attrs |-> IF a \in S THEN f[a] ELSE {}]
